@@ -179,6 +179,7 @@ class Interp:
         self.current_frame = None
         self.ghost_vars = {}    # extra names visible to contract expressions
         self.calls_ghost = None
+        self.ncalls = {}        # ghost: callback name -> number of its calls
         self.yield_hooks = []
 
     # ----------------------------------------------------- branching ----
@@ -836,6 +837,9 @@ class Interp:
                 raise Unsupported('keyword call of callback')
             r = fn.apply(args)
             self.calls.append((fn.name, tuple(args), r))
+            if not self.spec:
+                self.ncalls[fn.name] = z3.simplify(self.ncalls.get(
+                    fn.name, z3.IntVal(0)) + 1)
             return r
         if isinstance(fn, BoundMethod):
             try:
